@@ -103,6 +103,14 @@ CLAIMS = {
             "recovery replays in sequence order through the overwrite-only put. Does not enumerate crash points dynamically.",
             "Trusted: WAL latencies constant per log; handlers atomic (checked).",
             "DESIGN.md §5 C15"),
+    "C16": ("CFG path enumeration + must-facts over every cache insertion, cache-dict mutation, dirty-mark removal, fill site and served entry; sibling agreement over the nine eviction policies",
+            "Decides the structural clauses: a new key is stored only in the atomic step after an evict-until-fits loop (CachedStore, SoftTTLCache, PageCache); "
+            "cache dict and policy/LRU bookkeeping are changed together and every policy's on_remove/clear/evict covers the containers its on_insert/on_access fill; "
+            "a dirty mark or dirty page is dropped only after its data was written (re-validated after a suspension); a value fetched across a suspension is installed "
+            "only under the re-checks the code's write order requires; SoftTTLCache.get returns an entry only after is_fresh/is_valid on a current clock. "
+            "Does not decide hit rates or numeric staleness bounds.",
+            "Trusted: KVStore get/put atomic at return (C14-8); handlers atomic (checked).",
+            "DESIGN.md §5 C16"),
 }
 
 NOT_YET = "rule pack not built yet in this session (see DESIGN.md §11); no check is claimed for it"
